@@ -262,6 +262,39 @@ def rule_expsign(ctx, py):
     ctx.floor(R, 2)
 
 
+def rule_blocks(ctx, py):
+    """C18.BLOCKS -- every factor of the text is looked up and an unknown (or empty) symbol raises: no iteration of the factor loop
+    ends without having passed the `unit type is None -> raise` test, and the empty string is answered before the factor loop"""
+    R = "C18.BLOCKS"
+    from .. import pya, ir
+    f = py.fn("units.parse_units")
+    loops = [n for n in f.body if isinstance(n, ast.For) and any(
+        isinstance(c, ast.Call) and pyfe.call_name(c) == "get_unit_type" for c in ast.walk(n))]
+    ctx.need(len(loops) == 1, R, "parse_units: the factor loop (get_unit_type) is not found")
+    lp = loops[0]
+    tname = None
+    for st in ast.walk(lp):
+        if isinstance(st, ast.Assign) and isinstance(st.value, ast.Call) and pyfe.call_name(st.value) == "get_unit_type" and \
+                isinstance(st.targets[0], ast.Name):
+            tname = st.targets[0].id
+    ctx.need(tname is not None, R, "parse_units: result of get_unit_type is not kept in a local")
+    eng = ir.Engine(pya.PyFacts(), "must")
+    out = eng.ex(ir.py_to_ir(lp.body), frozenset())
+    ends = [x for x in (out.normal, out.cont) if x is not None]
+    ctx.need(ends, R, "parse_units: the factor loop body never completes")
+    want = [("%s == None" % tname, False), ("%s is None" % tname, False)]
+    okk = all(any(w in st_ for w in want) for st_ in ends)
+    ctx.check(okk, R, lp, f._qual, "every factor passes `%s == None -> raise`" % tname, "unknown and empty symbols raise",
+              "an iteration of the factor loop can end (continue / skip) without the unknown-unit test: a factor with an empty or "
+              "unknown symbol (`m..s`, `m.2`, a dangling separator) is silently dropped instead of raising")
+    # the empty text is the only text without factors: it is answered before the loop
+    early = [st for st in f.body[:f.body.index(lp)] if isinstance(st, ast.If) and any(isinstance(b_, ast.Return) for b_ in st.body) and
+             pyfe.src(st.test).replace(" ", "").replace('"', "'") in ("s==''", "''==s", "nots", "len(s)==0")]
+    ctx.check(len(early) == 1, R, early[0] if early else f, f._qual, "empty text -> dimensionless, before the factor loop", "",
+              "the empty text is no longer answered on its own: the factor loop has to let an empty symbol through")
+    ctx.floor(R, 2)
+
+
 def run(ctx):
     py = ctx.py
     rule_samebase(ctx, py)
@@ -275,6 +308,7 @@ def run(ctx):
     ctx.floors = {k: v for k, v in ctx.floors.items() if k.startswith("C18")}
     rule_print(ctx, py)
     rule_expsign(ctx, py)
+    rule_blocks(ctx, py)
     from .. import lints
     lints.run(ctx, "C18", ctx.py, ["units"])
     ctx.assume("NOT decided: the tokeniser's behaviour on arbitrary and malformed text (doubled / dangling separators, "
